@@ -2173,7 +2173,8 @@ class CIMInstanceName(_CIMComparisonMixin, SlottedPickleMixin):
         if self.namespace is not None:
             ret.append(case(self.namespace))
 
-        if self.namespace is not None or format != 'historical':
+        if self.namespace is not None or self.host is not None or \
+                format != 'historical':
             ret.append(':')
 
         ret.append(case(self.classname))
@@ -3773,7 +3774,8 @@ class CIMClassName(_CIMComparisonMixin, SlottedPickleMixin):
         if self.namespace is not None:
             ret.append(case(self.namespace))
 
-        if self.namespace is not None or format != 'historical':
+        if self.namespace is not None or self.host is not None or \
+                format != 'historical':
             ret.append(':')
 
         ret.append(case(self.classname))
